@@ -77,7 +77,8 @@ TEXTS["C05"] = dict(
     level_text="Seeded search over administrator lists, source addresses and per-position domains (every 4-byte class incl. near misses x random suffix) across all five "
                "signing endpoints of a real instance, a quarter of the runs with the rules answering UNKNOWN/FAILED: no generic signature under attester/proposer types, "
                "no attestation/proposal signature under a foreign type (state untouched by such refusals), voluntary-exit only for a listed source. The rule itself has no "
-               "schedule in it; what simulation adds is the batch endpoints under real worker parallelism, the error-path configurations and the check on the real store.",
+               "schedule in it; what simulation adds is the batch endpoints under real worker parallelism, the error-path configurations and the check on the real store. A 48-case table "
+               "over real gRPC/TLS (administrator list x loopback address the client binds to x forwarding headers x Sign/Multisign) decides that the source is the connection's own address.",
     level_note=TRUST + " The schedule dimension is vacuous for this property (stated in DESIGN.md section 8); the endpoint/domain monitor (M4) also runs in every other W1/W2 check.")
 TRUST2 = ("Trusted: Go runtime/synctest, badger, herumi BLS (incl. Recover), the wallet libraries, protobuf. The DKG transport is simulated (see real_vs_stub in the evidence); "
           "OnExecute iterates a Go map when sending its contributions, which the simulator cannot own: faults are therefore addressed by message identity and oracles use only order-independent facts.")
